@@ -1,6 +1,7 @@
 package cfgnf
 
 import (
+	"fmt"
 	"path/filepath"
 	"regexp"
 	"sort"
@@ -123,5 +124,29 @@ func (r *Raw) Backs() []Back {
 		res = append(res, b)
 	}
 	sort.Slice(res, func(i, j int) bool { return res[i].S < res[j].S })
+	return res
+}
+
+var reWeightTok = regexp.MustCompile(`\sweight (\d+)`)
+
+// ServerWeights maps addr:port to the weight written on the server line of a backend (enabled servers only).
+func ServerWeights(r *Raw, backend string) map[string]int {
+	res := map[string]int{}
+	for _, s := range r.Sections {
+		if s.Kind != "backend" || s.Name != backend {
+			continue
+		}
+		for _, l := range s.Lines {
+			m := reServer.FindStringSubmatch(l)
+			if m == nil || strings.Contains(" "+m[3]+" ", " disabled ") {
+				continue
+			}
+			w := 1
+			if wm := reWeightTok.FindStringSubmatch(" " + m[3]); wm != nil {
+				fmt.Sscanf(wm[1], "%d", &w)
+			}
+			res[m[2]] = w
+		}
+	}
 	return res
 }
